@@ -12,11 +12,14 @@ import (
 )
 
 // case ids of this package start here (one runner evidence table for all packages)
+// directory of this package inside the repository (race signatures are made relative to the repository root)
+const vC18PkgDir = "informer/numpin"
+
 const vC18IDBase = 500
 
-var vC18Plan = []vC18Scen{{Name: "informer-shutdown", Ms: 700, Workers: 5}}
+var vC18Plan = []vC18Scen{{Name: "numpin-shutdown", Ms: 700, Workers: 5}}
 
-var vC18Scenarios = map[string]func(x *vC18Ctx){"informer-shutdown": vC18Informer}
+var vC18Scenarios = map[string]func(x *vC18Ctx){"numpin-shutdown": vC18Informer}
 
 // metrics are produced by several goroutines (as the cluster's metric push loops do) while another one
 // shuts the informer down; a fresh informer (SetClient before any other goroutine sees it) replaces it
